@@ -11,8 +11,14 @@ element of `again` and (under the same condition) calls run_forever() again; whe
 thread ends.  Threads 1.. are foreign threads.  A clock thread comes last.
 
 A case: {"ts": bool, "t0": int, "pre": [op...], "again": [[op...]...], "progs": [[op...]...],
-         "bodies": {"label": [op...]}, "ticks": [...]},
-  op = ["now", a] | ["rel", d_us, a] | ["dispose", a] | ["stop"] | ["sleep", t_us]
+         "bodies": {"label": [op...]}, "ticks": [...], "own_loop": bool},
+  op = ["now", a] | ["rel", d_us, a] | ["abs", t_us, a] | ["dispose", a] | ["stop"] | ["sleep", t_us]
+  (rel: schedule_relative, d_us may be negative; abs: schedule_absolute(datetime of t_us on the controlled clock) --
+   both classes compute `duetime - self.now` and call schedule_relative; `now` is the scheduler's wall clock
+   (reactivex.scheduler.scheduler.default_now, rebound to the SAME controlled clock as loop.time()))
+  own_loop: every foreign thread makes its dispose() calls with a running event loop OF ITS OWN set
+   (asyncio.events._set_running_loop(other) ... (None)): asyncio.get_running_loop() then succeeds and
+   _on_self_loop_or_not_running reaches its last line `return self._loop == current_loop` (False: marshalled)
   (sleep: the calling thread waits until the controlled clock shows t_us -- a busy callback when made by
    an action, "run again later" when made between two runs)
 Log entries: (tid, clock_us, kind, label), kind in ret dispret dispnoop start end cberr stopped slept
@@ -145,8 +151,9 @@ def targets(fine, ts):
             EV_PATH: {"cancel": None, "_run": None},
             ATM_PATH: {f: None for f in ("schedule", "schedule_relative", "dispose", "do_cancel_handles", "stage2",
                                          "cancel_handle", "interval", "_on_self_loop_or_not_running",
-                                         "_wait_for_loop")},
-            ASM_PATH: {f: None for f in ("schedule", "schedule_relative", "dispose", "interval")},
+                                         "_wait_for_loop", "schedule_absolute")},
+            ASM_PATH: {f: None for f in ("schedule", "schedule_relative", "dispose", "interval",
+                                         "schedule_absolute")},
         }
         return t
     l_check, l_run = run_once_lines()
@@ -192,7 +199,9 @@ def run_case(case, chooser, fine=False, max_steps=3000):
     sch = (ATM.AsyncIOThreadSafeScheduler if ts else ASM.AsyncIOScheduler)(loop)
     bodies = {int(k): v for k, v in case.get("bodies", {}).items()}
     disp, actions = {}, {}
-    world = {"direct": 0}
+    world = {"direct": 0, "last_line": 0}
+    # a second loop that is never run: the "running loop" of the foreign threads of an own_loop case
+    other_loop = kt.CLoop(clock) if case.get("own_loop") else None
     holds = {}      # tid -> the thread has closed the gate (it may be / is on the direct path of a dispose)
     # The property assumes that the loop does not start while a dispose() that FOUND it not running is in
     # progress.  The moment of "finding" is inside `_on_self_loop_or_not_running`; the gate is therefore closed
@@ -206,6 +215,10 @@ def run_case(case, chooser, fine=False, max_steps=3000):
             if me != 0 and not holds.get(me):
                 holds[me] = True
                 world["direct"] += 1
+            if me != 0 and other_loop is not None and loop.is_running():
+                # this thread has a running loop of its own and the scheduler's loop is running: the call goes
+                # past `except RuntimeError` to the method's last line (counted for the coverage report)
+                world["last_line"] += 1
             r = orig_decide()
             if me != 0 and not r and holds.get(me):
                 holds[me] = False
@@ -222,11 +235,13 @@ def run_case(case, chooser, fine=False, max_steps=3000):
                 c.emit("slept", 0)
                 return
             c.yield_point("call")
-            if k in ("now", "rel"):
+            if k in ("now", "rel", "abs"):
                 a = op[-1]
                 c.emit("call", a)
                 if k == "now":
                     d = sch.schedule(action_of(a))
+                elif k == "abs":
+                    d = sch.schedule_absolute(clock.at(op[1]), action_of(a))
                 else:
                     d = sch.schedule_relative(timedelta(microseconds=op[1]), action_of(a))
                 disp[a] = d
@@ -244,9 +259,15 @@ def run_case(case, chooser, fine=False, max_steps=3000):
                 counted = orig_decide is None and (not on_loop) and (not loop.is_running())
                 if counted:
                     world["direct"] += 1
+                own = other_loop is not None and not on_loop
                 try:
+                    if own:
+                        # this (foreign) thread is inside a running event loop of its own
+                        EV._set_running_loop(other_loop)
                     d.dispose()
                 finally:
+                    if own:
+                        EV._set_running_loop(None)
                     if counted:
                         world["direct"] -= 1
                     if holds.get(me):
@@ -309,6 +330,7 @@ def run_case(case, chooser, fine=False, max_steps=3000):
         r.nprogs = len(case["progs"])
         r.clock_tid = clk
         r.final_clock = clock.us
+        r.last_line = world["last_line"]
         r.status = {}
         for t in c.threads:
             if t.tid == clk:
@@ -320,11 +342,12 @@ def run_case(case, chooser, fine=False, max_steps=3000):
         return r
     finally:
         E.RB.set_clock(kt.Clock(0))
-        try:
-            if not loop.is_running():
-                loop.close()
-        except Exception:
-            pass
+        for lp in (loop, other_loop):
+            try:
+                if lp is not None and not lp.is_running():
+                    lp.close()
+            except Exception:
+                pass
 
 
 # --------------------------------------------------------------------------
@@ -348,6 +371,8 @@ def g_aop(op, um):
         return "ANow"
     if op[0] == "rel":
         return f"ARel {lib.gz(op[1])}"
+    if op[0] == "abs":
+        return f"AAbs {lib.gz(op[1])}"
     if op[0] == "stop":
         return "AStop"
     if op[0] == "sleep":
@@ -408,7 +433,7 @@ def oracle(case, r):
     kinds = {}
     for l in [case.get("pre", [])] + case.get("again", []) + case["progs"] + list(case.get("bodies", {}).values()):
         for op in l:
-            if op[0] in ("now", "rel"):
+            if op[0] in ("now", "rel", "abs"):
                 kinds[op[-1]] = op
     for a, op in kinds.items():
         i_start = pos.get(("start", a))
@@ -417,13 +442,18 @@ def oracle(case, r):
         if log[i_start][0] != 0:
             bad.append((f"C33 action-off-loop-thread|{ts}", f"action {a} started on thread {log[i_start][0]}"))
         i_call = pos.get(("call", a))
-        due = log[i_call][1] + (max(0, op[1]) if op[0] == "rel" else 0)
+        t_call = log[i_call][1]
+        # due time, from the property text: the moment of the call (schedule), that moment + the relative time
+        # (a negative one is in the past: nothing to wait for), the absolute time itself
+        due = op[1] if op[0] == "abs" else t_call + (max(0, op[1]) if op[0] == "rel" else 0)
         if log[i_start][1] < due:
-            bad.append((f"C33 early|{ts}", f"action {a} due {due} started at {log[i_start][1]}"))
+            bad.append((f"C33 early|{ts}|{'absolute' if op[0] == 'abs' else 'relative'}",
+                        f"action {a} due {due} started at {log[i_start][1]}"))
         i_disp = pos.get(("dispret", a))
         if i_disp is not None and i_disp < i_start:
             who = "loop-thread" if log[i_disp][0] == 0 else "foreign-thread"
-            two = "two-stage" if (op[0] == "rel" and op[1] > 0 and case.get("ts", True)) else "single-handle"
+            delay = op[1] if op[0] == "rel" else (op[1] - t_call if op[0] == "abs" else 0)
+            two = "two-stage" if (delay > 0 and case.get("ts", True)) else "single-handle"
             bad.append((f"C33 started-after-dispose-returned|{ts}|{who}|{two}",
                         f"dispose() of action {a} returned at log position {i_disp} (thread {log[i_disp][0]}), the "
                         f"action started at position {i_start}"))
